@@ -34,6 +34,8 @@ pub enum Op {
 	Splice { f: usize, from: usize, g: usize, insert: bool },
 	/// joint mutation of a segment identifier: height and idx fields (None = keep the seed's value)
 	Ident { fh: usize, fi: usize, h: Option<u8>, idx: Option<u64> },
+	/// a JSON value token replaced by value class `k`
+	Json { f: usize, k: u32 },
 	/// consistent re-encoding of a segment proof with one hash less (-1), one more (+1) or none (0)
 	ProofLen { f: usize, delta: i8 },
 }
@@ -228,6 +230,7 @@ impl Space {
 							}
 						}
 					}
+					"json" => push(Op::Json { f: f - 1, k: o["k"].as_u64().unwrap_or(0) as u32 }),
 					"proof" => {
 						for d in o["deltas"].as_array().map(|a| a.as_slice()).unwrap_or(&[]) {
 							push(Op::ProofLen { f: f - 1, delta: d.as_i64().unwrap_or(0) as i8 });
@@ -420,6 +423,43 @@ impl Space {
 				}
 				out
 			}
+			Op::Json { f, k } => {
+				let fl = &s.fields[*f];
+				let orig = &b[fl.off..fl.off + fl.w];
+				let inner: &[u8] = if orig.len() >= 2 && orig[0] == b'"' { &orig[1..orig.len() - 1] } else { orig };
+				let q = |x: &[u8]| {
+					let mut v = vec![b'"'];
+					v.extend_from_slice(x);
+					v.push(b'"');
+					v
+				};
+				let rep: Vec<u8> = match k {
+					0 => q(b""),
+					1 => q(b"0"),
+					2 => q(b"zz"),
+					3 => q("\u{e9}\u{e9}".as_bytes()),
+					4 => q(&inner[..inner.len().saturating_sub(1)]),                       // odd number of hex digits
+					5 => q(&[inner, inner].concat()),                                       // twice as long
+					6 => q(&b"ab".repeat(40_000)),                                          // 40 000 bytes of hex
+					7 => q(&[&inner[..inner.len() / 2], "\u{e9}".as_bytes(), &inner[inner.len() / 2..]].concat()),
+					8 => b"null".to_vec(),
+					9 => b"-1".to_vec(),
+					10 => b"0".to_vec(),
+					11 => b"18446744073709551615".to_vec(),
+					12 => b"18446744073709551616".to_vec(),
+					13 => b"1e400".to_vec(),
+					14 => b"[]".to_vec(),
+					15 => b"{}".to_vec(),
+					16 => b"true".to_vec(),
+					17 => q(b"18446744073709551615"),
+					18 => q(&inner[..inner.len().min(2)]),                                  // one byte of hex
+					_ => q(b"\\ud800"),
+				};
+				let mut out = b[..fl.off].to_vec();
+				out.extend_from_slice(&rep);
+				out.extend_from_slice(&b[fl.off + fl.w..]);
+				out
+			}
 			Op::ProofLen { f, delta } => {
 				let fl = &s.fields[*f];
 				let mut cnt = [0u8; 8];
@@ -496,7 +536,7 @@ impl Space {
 					aux: s.aux,
 					ctx: s.ctx.clone(),
 					origin: json!({"gen": "mut", "seed": s.label, "enc_ver": s.ver, "lay": seed, "plan": plan, "op": format!("{:?}", o),
-						"field_kind": match o { Op::Set{f,..} | Op::Drop{f} | Op::Dup{f} | Op::Splice{f,..} | Op::ProofLen{f,..} => s.fields[*f].kind, Op::Ident{..} => "ident", _ => "" }}),
+						"field_kind": match o { Op::Set{f,..} | Op::Drop{f} | Op::Dup{f} | Op::Splice{f,..} | Op::ProofLen{f,..} | Op::Json{f,..} => s.fields[*f].kind, Op::Ident{..} => "ident", _ => "" }}),
 					expect_ok: false,
 					expect_post: false,
 				}
